@@ -1831,7 +1831,39 @@ def check_c11(rep, tier, seed, wd, replay):
     return cov, []
 
 
-def relayout(r, L):
+EMPTY_FRAMES = {b"zstd": bytes.fromhex("28b52ffd2000010000")}     # what the reference zstd library emits for no input
+
+
+def build_compressed(layouts, wd, tag):
+    """mcapenc.build for layouts whose chunks name a compression: the chunk payloads come from the codec libraries the
+    Go harness links (helper mode `compress`), an empty zstd chunk from the reference library's 9-byte frame (the Go
+    encoder emits no bytes at all for it; both are valid). Returns the files in order."""
+    wanted = {}
+
+    def rec(comp, plain):
+        wanted[(bytes(comp), bytes(plain))] = None
+        return b""
+    for L in layouts:
+        mcapenc.build(L, compress=rec)
+    keys = sorted(wanted)
+    q = [("k%d" % i, ["compress %s %s" % (k[0].decode(), cm.hx(k[1]))]) for i, k in enumerate(keys) if k[1] or k[0] not in EMPTY_FRAMES]
+    raw = {}
+    if q:
+        raw, _ = cm.run_sharded(impl_path(), "compress", q, wd, tag + "comp", nshards=4)
+    for i, k in enumerate(keys):
+        if not k[1] and k[0] in EMPTY_FRAMES:
+            wanted[k] = EMPTY_FRAMES[k[0]]
+            continue
+        line = next((l for l in raw.get("k%d" % i, []) if l.startswith("compressed ")), None)
+        f = line.split(" ") if line else []
+        wanted[k] = cm.unhx(f[2]) if len(f) > 2 else b""
+    out = []
+    for L in layouts:
+        out.append(mcapenc.build(L, compress=lambda comp, plain: wanted[(bytes(comp), bytes(plain))])[0])
+    return out
+
+
+def relayout(r, L, compressed=False):
     """another legal layout of the same logical content"""
     msgs = []
     others = []
@@ -1860,7 +1892,7 @@ def relayout(r, L):
         else:
             inner = ([h for h in heads] if (first and style != "top") or style == "repeat" else []) + part
             if inner or r.random() < 0.3:
-                items.append(("chunk", inner, {}))
+                items.append(("chunk", inner, {"compression": r.choice([b"", b"", b"zstd", b"lz4"])} if compressed else {}))
             elif first and style != "top":
                 items += heads
         if others and r.random() < 0.5:
@@ -1883,7 +1915,7 @@ def check_c12(rep, tier, seed, wd, replay):
     import random
     r = random.Random(seed * 1000 + 12)
     n = 220 if tier == "quick" else 1500
-    lcases, rcases, groups = [], [], []
+    lcases, rcases, groups, pending = [], [], [], []
     for i in range(n):
         dom = r.choice([[0, 1, 2, 3], [5, 9, 2**40, 2**64 - 1], list(range(12))])
         L = arrangement(r, r.randint(1, 5) if i % 3 else r.randint(4, 9), r.randint(1, 4), dom, empty_channel=False)
@@ -1892,13 +1924,14 @@ def check_c12(rep, tier, seed, wd, replay):
         L["items"].append(("metadata", {"name": b"tail", "metadata": [(b"x", b"y")]}))
         ids = []
         for v in range(3):
-            LL = L if v == 0 else relayout(r, L)
-            data, _ = mcapenc.build(LL)
+            LL = L if v == 0 else relayout(r, L, compressed=True)
             fid = "c12_%d_%d" % (i, v)
             ids.append((fid, LL))
-            for c in layout_reads(fid, data, windows=(dom[0], dom[1], dom[-1])):
-                (lcases if c["kind"] == "lex" else rcases).append(c)
+            pending.append((fid, LL, (dom[0], dom[1], dom[-1])))
         groups.append(ids)
+    for (fid, LL, win), data in zip(pending, build_compressed([p[1] for p in pending], wd, "c12")):
+        for c in layout_reads(fid, data, windows=win):
+            (lcases if c["kind"] == "lex" else rcases).append(c)
     go_l, model_l, nd1 = lex_corr(rep, lcases, wd, "c12l")
     go_r, model_r, nd2 = read_corr(rep, rcases, wd, "c12r")
     byid = {c["id"]: c for c in lcases + rcases}
@@ -1947,7 +1980,7 @@ def check_c12(rep, tier, seed, wd, replay):
             c = byid[ref_id + suf]
             report_case(rep, c, [], cl.lex_replay if suf.startswith("_lex") else cr.read_replay)
     cov = summarize(rep, len(lcases) + len(rcases), len(groups),
-                    "each logical content rendered by the reference encoder in 3 legal layouts: different chunk partitions (incl. empty chunks and unchunked messages), schema/channel records at top level / inside the first chunk / repeated in every chunk, all permutations of summary groups sampled, optional sections (statistics, attachment index, message indexes, summary offsets, CRCs) present or not; read by lexer, Info, indexed, scan, LogTime, Reverse+topic, and two time-bounded index-based reads (a narrow window at the low end in file order, an open-ended one at the high end in log-time order); compared with the model; oracle: same content from every layout (indexed reads compared between layouts that keep chunk indexes and chunk every message)",
+                    "each logical content rendered by the reference encoder in 3 legal layouts: different chunk partitions (incl. empty chunks and unchunked messages), per-chunk compression none/zstd/lz4 (payloads from the codec libraries; empty zstd chunks as the reference library's 9-byte frame or as no bytes), schema/channel records at top level / inside the first chunk / repeated in every chunk, all permutations of summary groups sampled, optional sections (statistics, attachment index, message indexes, summary offsets, CRCs) present or not; read by lexer, Info, indexed, scan, LogTime, Reverse+topic, and two time-bounded index-based reads (a narrow window at the low end in file order, an open-ended one at the high end in log-time order); compared with the model; oracle: same content from every layout (indexed reads compared between layouts that keep chunk indexes and chunk every message)",
                     [cl.lex_replay(c)[:4] for c in lcases[:2]], {"contents": len(groups), "layout_comparisons": ncmp, "disagreements": nd1 + nd2})
     return cov, []
 
